@@ -284,11 +284,18 @@ func c13Bytes(c *Ctx) {
 		c.Case(int64(1+b), func(k *K) {
 			ok := refCode(byte(b)) >= 0
 			k.Input("byte", b)
-			for pos := -1; pos <= len(valid); pos++ {
+			for pos := -4; pos <= len(valid); pos++ {
 				var s []byte
-				if pos < 0 {
+				switch {
+				case pos == -4: // a whole packed byte worth of the value, alone and around valid bases
+					s = bytes.Repeat([]byte{byte(b)}, 4)
+				case pos == -3:
+					s = append(bytes.Repeat([]byte{byte(b)}, 4), valid...)
+				case pos == -2:
+					s = append(append([]byte{}, valid...), bytes.Repeat([]byte{byte(b)}, 5)...)
+				case pos < 0:
 					s = []byte{byte(b)}
-				} else {
+				default:
 					s = append(append(append([]byte{}, valid[:pos]...), byte(b)), valid[pos:]...)
 				}
 				p := expectPanic(func() { sequtil.DNATo2Bit(nil, s) })
@@ -554,10 +561,39 @@ func c14Panics(c *Ctx) {
 					k.Evals(1)
 				}
 			}
+			// the byte at two and at all three positions of a codon, as the first,
+			// the middle and the last codon of a sequence
+			for mask := 3; mask <= 7; mask++ {
+				if mask == 4 {
+					continue
+				}
+				codon := []byte("tCa")
+				for p := 0; p < 3; p++ {
+					if mask&(1<<p) != 0 {
+						codon[p] = byte(b)
+					}
+				}
+				for _, ctx := range [][2]string{{"", ""}, {"", "ATGGCC"}, {"ATG", ""}, {"GCA", "TTT"}} {
+					s := append(append([]byte(ctx[0]), codon...), ctx[1]...)
+					p := expectPanic(func() { sequtil.Translate(nil, s) })
+					if ok && p {
+						k.Failf("unexpected-panic", "Translate(%q) panicked", s)
+						return
+					}
+					if !ok && !p {
+						k.Failf("missing-panic", "byte %d (%q) at codon positions mask %03b: Translate(%q) did not panic", b, b, mask, s)
+						return
+					}
+					if !ok {
+						k.Count("bad_base_panics", 1)
+					}
+					k.Evals(1)
+				}
+			}
 			k.DistinctBC(1)
 		})
 	}
-	c.Exhaustive("panics: all 256 byte values at each of the 3 codon positions")
+	c.Exhaustive("panics: all 256 byte values at each non-empty subset of the 3 codon positions, in 4 contexts")
 }
 
 func c14AminoName(c *Ctx) {
